@@ -23,6 +23,7 @@ func init() {
 			"S6 a parameter is accepted without comparing its type name only on an edge where IsFile() == KindIsFile was established (a plain file type may be renamed; composite types containing files may not). " +
 			"S7 some function reachable from Ast.EquivalentCall reads the members of struct types (struct-typed parameters are not compared by name only). " +
 			"S8 on the error edge of Pipestance.Lock no pipestance is returned. " +
+			"S9 the lock file is removed only behind readOnly() == false; S10 the pipestance-level metadata cache is rescanned only by Lock or behind readOnly()/the readOnly parameter being false (Immortalize tabled). " +
 			"NOT decided: completeness (that cosmetic edits are accepted), races between two simultaneous first starts.",
 		Assumptions: commonAssumptions,
 	}
@@ -42,6 +43,7 @@ func runC15(c *an.Ctx) {
 	ruleS7(c)
 	ruleS8(c)
 	ruleS9(c)
+	ruleS10(c)
 }
 
 func relationFuncs(c *an.Ctx) []*ssa.Function {
